@@ -86,4 +86,11 @@ def direct(run):
 
 
 def replay(path):
+    rep = json.load(open(path))
+    if rep.get("kind") == "impl-input" and isinstance(rep.get("input"), dict) and "a" in rep["input"]:
+        vlib.harness_build()
+        rc, js, out, err = vlib.harness(["ord-replay", "--case", json.dumps(rep["input"])])
+        print(json.dumps({"input": {k: (v if not isinstance(v, list) or len(v) < 40 else "%d elements" % len(v)) for k, v in rep["input"].items()},
+                          "observed_now": js, "recorded": rep.get("observed")})[:3000])
+        return 0
     return sklib.replay_generic(ID, path)
